@@ -308,6 +308,13 @@ def make_empty_jail(jail: str):
         f.write("unseen: 1\n")
     with open(os.path.join(jail, "outside.txt"), "w") as f:
         f.write("canary " + DECOY_TOKEN + "\n")
+    # a sibling whose name merely *starts with* the mail directory's name (mail vs mail-old): a containment
+    # check that compares characters instead of path components takes it for inside
+    sib = os.path.join(jail, "mail-old", "secret")
+    os.makedirs(sib)
+    for k in ("1", "2", "3"):
+        with open(os.path.join(sib, k), "wb") as f:
+            f.write(f"From: spy@example.com\nSubject: old {k} {DECOY_TOKEN}\n\nold body {DECOY_TOKEN}\n".encode())
 
 
 def snapshot_tree(root: str, skip_db: bool = True) -> dict:
